@@ -2,6 +2,7 @@
 import json
 
 from harness import common, gen, codec, wire, sigs
+from pyasn1 import error
 from pyasn1.type import tag as ptag
 from pyasn1.codec.ber import encoder as ber_encoder
 from pyasn1.codec.ber import decoder as ber_decoder
@@ -199,6 +200,55 @@ def run(rep, tier, seed):
                     rep.fail('decoded-tags-after-deriving-siblings', 'decoding with the type object after sibling types were derived '
                              'from it and re-encoding gives %s, not the input %s' % (b3.hex()[:80], b.hex()[:80]),
                              dict(replay, bytes=b.hex()))
+            # --- a member declared with this type: a value object of a type whose tags differ (one tagging changed, or
+            # outer taggings left out) is refused by the container, or else the declared tags are what goes on the wire;
+            # and isSuperTagSetOf is the prefix relation it documents
+            if depth >= 1 and defMode and gen.base_of(t)[0] != 'choice':
+                others = []
+                x = t
+                while x[0] == 'tag':
+                    x = x[4]
+                    others.append(x)                       # outer taggings left out, one more each time
+                others += [perturb(rng, t, pos) for pos in range(depth)]
+                from pyasn1.type import namedtype as _nt, univ as _univ
+                for t2 in others:
+                    if not gen.wf(t2) or gen.tags_of(t2) == gen.tags_of(t):
+                        continue
+                    try:
+                        s2 = gen.build(t2)
+                        vobj = gen.build_value(t2, v, s2)
+                    except Exception:  # noqa
+                        continue
+                    rep.count('foreign-tag-assignments')
+                    own, oth = list(schema.tagSet.superTags), list(s2.tagSet.superTags)
+                    want_super = oth[:len(own)] == own
+                    if bool(schema.tagSet.isSuperTagSetOf(s2.tagSet)) != want_super:
+                        rep.fail('isSuperTagSetOf-differs', 'isSuperTagSetOf(%s, %s) answers %s' % (
+                            gen.ty_sexp(t)[:80], gen.ty_sexp(t2)[:80], not want_super), dict(replay, other=gen.ty_sexp(t2)))
+                    if want_super:
+                        continue
+                    for hname, holder in (('seq', _univ.Sequence(componentType=_nt.NamedTypes(_nt.NamedType('x', schema)))),
+                                          ('seqof', _univ.SequenceOf(componentType=schema))):
+                        try:
+                            if hname == 'seq':
+                                holder['x'] = vobj
+                            else:
+                                holder.append(vobj)
+                            hb = bytes(ber_encoder.encode(holder))
+                        except (error.PyAsn1Error, KeyError, IndexError):
+                            continue        # refused (the item protocols turn the refusal into KeyError / IndexError)
+                        except Exception as e:  # noqa
+                            rep.fail('foreign-tag-leak-' + type(e).__name__, str(e)[:200], dict(replay, other=gen.ty_sexp(t2)))
+                            continue
+                        inner = hb[2:] if hb[1] < 0x80 else hb[2 + (hb[1] & 0x7f):]
+                        try:
+                            got2 = walk_idents(inner, len(exp)) if exp else []
+                        except Exception:  # noqa
+                            got2 = None
+                        if got2 is None or [(c, n_) for c, _, n_ in got2] != exp:
+                            rep.fail('container-emits-foreign-tags', 'a %s declared with member type %s took a value object of type %s '
+                                     'and wrote the identifiers %r instead of %r' % (hname, gen.ty_sexp(t)[:80], gen.ty_sexp(t2)[:80], got2, exp),
+                                     dict(replay, other=gen.ty_sexp(t2), bytes=hb.hex(), holder=hname))
             # --- rejected by every single-position perturbation
             if depth >= 1 and defMode:
                 for pos in range(depth):
